@@ -2,7 +2,7 @@
   `optimize` is the identity on canonical normal forms (`nfc`): stage lemmas and the main induction.
 -/
 import J2M.Proofs.Optimize
-namespace J2M
+namespace J2M.C08P
 
 /-! mapM in `Except` -/
 theorem mapM_ok_id {α ε} (f : α → Except ε α) (l : List α) (h : ∀ x ∈ l, f x = .ok x) :
@@ -673,4 +673,4 @@ theorem optimize_idem_nfc (cfg : GenCfg) (e : EqEnv) (t : Ty) (h : nfc cfg t = t
     (fuel : Nat) (hf : 4 * t.size ≤ fuel) : optimize cfg e fuel t = .ok t :=
   (idemAt_all cfg e t.size).1 t (Nat.le_refl _) h fuel hf
 
-end J2M
+end J2M.C08P
